@@ -683,11 +683,15 @@ def check_window(ck, prog):
 
 
 def check_limit_terms(ck, prog):
-    """lzma_lzma_encode() stops filling an LZMA2 chunk when `*out_pos + rc_pending() >= LZMA2_CHUNK_MAX - LOOP_INPUT_MAX`.
-    One loop iteration encodes a whole optimum run: up to OPTS + 1 input bytes (OPTS = length of coder->opts[]), which
-    can produce about as many output bytes when incompressible.  The margin therefore has to be at least OPTS + 1; the
-    constant is read from the (constant-folded) comparison and OPTS from the array type of the record member."""
-    ck.rule("C01-LIMITS", "the LZMA2 chunk cut-off leaves room for one whole loop iteration (OPTS + 1 bytes)")
+    """lzma_lzma_encode() stops filling an LZMA2 chunk when `*out_pos + rc_pending() >= LZMA2_CHUNK_MAX - margin` (tested at
+    the top of the loop).  One more iteration then encodes ONE symbol.  If the chunk ends up incompressible, lzma2_encode()
+    stores `uncompressed_size + mf->read_ahead` bytes as one uncompressed chunk, whose size field is 16 bits.  With c the
+    tested value (c <= 65535 - margin), k the output bytes of the last symbol and ra the read-ahead left by the optimum
+    parser:   stored size <= (c + k) + ra   (fallback only if compressed >= uncompressed).  k is at most one byte per
+    queued range-coder operation (RC_SYMBOLS_MAX, the length of rc.symbols[]) and ra <= OPTS - 1 (OPTS = length of
+    coder->opts[]).  So the margin has to be at least OPTS + RC_SYMBOLS_MAX - 2; the rule asks for OPTS + RC_SYMBOLS_MAX.
+    Both constants are read from the array types of the records, the margin from the (constant-folded) comparison."""
+    ck.rule("C01-LIMITS", "the LZMA2 chunk cut-off leaves room for the read-ahead of one optimum run and the output of one symbol")
     f = prog.fn("lzma_lzma_encode", "lzma_encoder.c")
     ck.saw_function(f)
     conds = [b.term["cond"] for b in f.blocks.values() if b.term and "cond" in b.term and "rc_pending" in ex.show(b.term["cond"])]
@@ -699,25 +703,30 @@ def check_limit_terms(ck, prog):
         raise AnalysisBroken("lzma_lzma_encode: `%s` is not a comparison with a constant" % ex.show(c)[:80])
     if c["op"] == ">":
         lim += 1
-    opts = None
     import re
-    for rn, rec in prog.records.items():
-        if rn.startswith("lzma_lzma1_encoder"):
-            for fd_ in rec["fields"]:
-                if fd_["n"] == "opts":
-                    m = re.search(r"\[(\d+)\]", fd_.get("ty") or "")
-                    if m:
-                        opts = int(m.group(1))
-    if opts is None:
-        raise AnalysisBroken("length of lzma_lzma1_encoder.opts[] not found")
+
+    def arrlen(recprefix, member):
+        for rn, rec in prog.records.items():
+            if rn.startswith(recprefix):
+                for fd_ in rec["fields"]:
+                    if fd_["n"] == member:
+                        m = re.search(r"\[(\d+)\]", fd_.get("ty") or "")
+                        if m:
+                            return int(m.group(1))
+        raise AnalysisBroken("length of %s.%s[] not found" % (recprefix, member))
+    opts = arrlen("lzma_lzma1_encoder", "opts")
+    rcmax = arrlen("lzma_range_encoder", "symbols")
     CH = 1 << 16
-    ok = lim <= CH - (opts + 1)
+    need = opts + rcmax
+    ok = CH - lim >= need
     ck.ob("C01-LIMITS", "lzma2-chunk-cutoff", ok, common.where(f, conds[0]),
-          "chunk cut-off at %d = LZMA2_CHUNK_MAX - %d, one loop iteration is at most OPTS + 1 = %d bytes" % (lim, CH - lim, opts + 1)
-          if ok else
-          "lzma_lzma_encode(): the chunk is cut only at %d output bytes, a margin of %d below LZMA2_CHUNK_MAX, but one loop "
-          "iteration can add OPTS + 1 = %d bytes: an incompressible chunk can outgrow 64 KiB and the 16-bit size field of "
-          "the uncompressed fallback wraps" % (lim, CH - lim, opts + 1), key="LIMITS:lzma2-chunk-cutoff")
+          "chunk cut-off at %d = LZMA2_CHUNK_MAX - %d; OPTS = %d, RC_SYMBOLS_MAX = %d, needed margin %d" % (
+              lim, CH - lim, opts, rcmax, need) if ok else
+          "lzma_lzma_encode(): the chunk is cut at %d output bytes, a margin of %d below LZMA2_CHUNK_MAX; the iteration that "
+          "follows the test can leave up to OPTS - 1 = %d bytes of read-ahead and add up to RC_SYMBOLS_MAX = %d output bytes, so "
+          "an incompressible chunk can reach %d + %d + %d > 65536 bytes and the 16-bit size field of the uncompressed-chunk "
+          "fallback wraps (corrupt stream, no error)" % (lim, CH - lim, opts - 1, rcmax, lim - 1, rcmax, opts - 1),
+          key="LIMITS:lzma2-chunk-cutoff")
     ck.floor("C01-LIMITS", 1)
 
 
